@@ -108,3 +108,7 @@ func init() {
 		ruleMemoKeyCoversInputs(r, "memo", 0, nil, "")
 	})
 }
+
+func init() {
+	register("INFER-BASELINE", func(r *Report, tier string) {})
+}
